@@ -488,7 +488,8 @@ var assumptionText = map[string]string{
 	"A-CLOSED":  "A-CLOSED: interface values hold only dynamic types that the module itself converts to interfaces (closed world)",
 	"A-PUREFN":  "A-PUREFN: function-typed parameters are pure functions of their arguments",
 	"A-GLOBALS": "A-GLOBALS: package-level variables are not reassigned after initialisation",
-	"A-KEYS":    "A-KEYS: map keys containing strings are compared by representation (over-approximates Go equality)",
+	"A-KEYS":    "A-KEYS: map keys that contain strings are compared by content through canonical representatives (str.canon) whose defining axioms are instantiated pairwise for the keys a function uses",
+	"A-FS":      "A-FS: the file system is ghost state (number of writes, path and data of the last write) that only os.WriteFile changes; os.WriteFile may fail; other os functions return unknown results and are assumed not to change file contents",
 	"A-RECV":    "A-RECV: pointer receivers of methods are non-nil",
 	"A-INV":     "A-INV: declared type invariants are checked where a value is created, stored, boxed, passed or returned by a function under contract, and assumed where it is read; invariants that read through a slice field (block.lines) additionally assume that nobody writes the slice's elements after construction (ownership is not tracked)",
 }
